@@ -261,6 +261,9 @@ func VH_C19_ctor() {
 	}
 	a := NewNode(opts...)
 	c19Equal(c19Observe(a), want, "constructor-options-vs-spec")
+	// an option list is the caller's: a second node built from the same list is configured the same
+	a2 := NewNode(opts...)
+	c19Equal(c19Observe(a2), want, "second-node-from-the-same-option-list")
 	c19Equal(c19Observe(b), want, "chained-builder-vs-spec")
 	// configuring one node leaves every other node alone: fresh nodes still have the defaults
 	c19FreshDefaults()
@@ -404,6 +407,8 @@ func VH_C19_batchCtor() {
 	a := NewBatchNode(opts...)
 	c19BEqual(c19BObserve(b), want, "batch-chained-builder-vs-spec")
 	c19BEqual(c19BObserve(a), want, "batch-constructor-options-vs-spec")
+	a2 := NewBatchNode(opts...)
+	c19BEqual(c19BObserve(a2), want, "second-batch-node-from-the-same-option-list")
 	// configuring one node leaves every other node alone: fresh nodes still have the defaults
 	c19FreshDefaults()
 	vCover("batch-ctor")
